@@ -13,7 +13,7 @@ DDL_TRUST = [
     "DROP TABLE IF EXISTS on a missing table is a no-op",
     "RENAME TABLE on a missing source is an error unless IF EXISTS; onto an existing target is an error",
     "ALTER TABLE on a missing table is an error; ADD COLUMN of an existing column is an error unless IF NOT EXISTS; the actions of one ALTER apply atomically",
-    "MODIFY SETTING / MODIFY TTL replace the stored value",
+    "MODIFY SETTING / MODIFY TTL replace the stored value; a storage policy with an empty name does not exist",
     "a statement either applies completely or not at all; a crash loses everything except the applied statements",
     "max(ver) over no rows is 0; argMax(value, inserted_at) returns the value of the latest row of that fingerprint",
     "any statement form not listed makes the check exit 2 instead of guessing",
